@@ -14,7 +14,7 @@
 EXTENDS Integers, Sequences, TLC, Json
 
 CONSTANT BMin
-T == INSTANCE Termination WITH N3 <- 0, c <- 0
+T == INSTANCE Termination WITH N3 <- 0, N4 <- 0, c <- 0
 
 Trace == ndJsonDeserialize("term_trace.ndjson")
 
